@@ -66,7 +66,7 @@ chk("C12", "exploration",
     "outcome model in TLA+; every observed run validated against it by TLC; fault enumeration + mutation", "DESIGN.md 3 C12")
 chk("C13", "model_checking",
     "GenDir.tla (directory state: source, class of each generated file; actions Gen/SetSource/Delete/Corrupt/Stale) is model-checked (after Gen on a valid source all files are Out(src) whatever preceded; Gen is a fixpoint); enumerated histories ([Gen,] op [, op], Gen from every initial source, varying working directory and --report) are replayed on the real binary and validated step by step by GenDirTrace (file classes against fresh-directory output, exit status, report bytes); repeated generations in separate processes re-sample map iteration order.",
-    BASE + "map iteration orders are re-sampled, not enumerated; three projects (two valid, one invalid); plus one five-file project generated from four file-creation orders on two file systems (scratch and /dev/shm when present)",
+    BASE + "map iteration orders are re-sampled, not enumerated; seven projects (two unrelated valid ones, four siblings of the first that differ only in token order / one lexical expression / precedence levels / the Go sources, one invalid); an observed file class is the set of projects whose fresh output it equals; plus one five-file project generated from four file-creation orders on two file systems (scratch and /dev/shm when present)",
     "TLA+ directory model + trace validation of replayed histories", "DESIGN.md 3 C13")
 chk("C14", "model_checking",
     "lox is built from a scratch copy of the working tree and run on internal/parser and the three examples; every generated file must be byte-identical to the checked-in one (12 file comparisons, exhaustive); the four one-step traces are validated against GenDir's Gen action with Out(src) := the checked-in bytes.",
@@ -81,9 +81,9 @@ chk("C18", "model_checking",
     BASE + "Go race detector; interleavings finer than callbacks are covered only by -race and the inventory",
     "TLC-enumerated schedules replayed on goroutines; race detector; variable inventory", "DESIGN.md 3 C18")
 chk("C19", "translation_validation",
-    "TLC enumerates declaration layouts (tokens, tokens with modes, @external lines, @emit fragments, a second file sorting before/after); for each the expected numbering (EOF=0, ERROR=1, then dense in declaration order, files in name order) is compared with the const block, with _TokenToString evaluated in the compiled package over -1..n+1, with the token type the real lexer returns for each rule's lexeme, and with the keys of the parser's start-state action row.",
-    BASE + "layouts up to 4 items; all of length <= 2, a seeded sample of longer ones; each also with some terminals the parser never mentions and / or generated with --report",
-    "expected numbering in TLA+ compared with the three generated files and the running lexer", "DESIGN.md 3 C19")
+    "TLC enumerates declaration layouts (tokens, tokens with modes, @external lines, @emit fragments, a second file sorting before/after); for each the expected numbering (EOF=0, ERROR=1, then dense in declaration order, files in name order) is compared with the const block, with _TokenToString evaluated in the compiled package over -1..n+1, with the token type the real lexer returns for each rule's lexeme, and with the keys of the parser's start-state action row; some layouts are generated over a directory that already holds the output of the same names declared in reverse order. The numbers in use: Lox.tla composes LexerRT (reference driver over the emitted lexer tables) and ParserRT (emitted parser tables) where the template pulls a token, TLC explores it over every text up to a bound for ten lexer+parser specifications and judges accept/reject against the definition (LexSem token types, then CFG membership); the compiled programs are run on the same texts and every run is checked against the definition and against the model (tokens pulled, verdict).",
+    BASE + "layouts up to 4 items; all of length <= 2, a seeded sample of longer ones; each also with some terminals the parser never mentions and / or generated with --report; system texts up to 3 (thorough 4) characters in the model, 4 (5) plus random longer ones on the real programs",
+    "expected numbering in TLA+ compared with the three generated files and the running lexer; composed lexer+parser model explored by TLC and bound to the compiled programs", "DESIGN.md 3 C19")
 
 def main():
     props = [json.loads(l)["id"] for l in open("/verif/properties.jsonl")]
